@@ -68,6 +68,23 @@ def ClosedNeg (D : List (Int × Int)) : Prop := (∀ d ∈ D, (-d.1, -d.2) ∈ D
 def GridValid (c : ArrayCfg V) (g : Grid V) : Prop :=
   ∀ y x : Int, InR c y x → ∃ v, cellI g y x = some v ∧ (v ∈ c.choice ∨ v = c.default)
 
+/-- What the property demands of one update `u` offered by `ArrayBuilder2D.candidates` for the grid `g`:
+it only names cells of the board; every value it writes comes from the choice set, is the default, or
+(move updates) already stands in some cell of `g`; `copy_with_update` succeeds; the new grid has the same
+shape, agrees with `g` on every cell not named in `u`, and every changed cell holds a value listed for
+it in `u`; validity of all cell values is preserved; and with `symmetry` the point symmetry of
+default-ness is preserved. -/
+def UpdateOk [DecidableEq V] (c : ArrayCfg V) (g : Grid V) (u : CellUpd V) : Prop :=
+  (∀ t ∈ u, InR c t.1 t.2.1) ∧
+  (∀ t ∈ u, t.2.2 ∈ c.choice ∨ t.2.2 = c.default ∨ ∃ y x, InR c y x ∧ cellI g y x = some t.2.2) ∧
+  (∃ g', applyCells g u = .ok g') ∧
+  (∀ g', applyCells g u = .ok g' →
+    Shaped c.height c.width g' ∧
+    (∀ y x, (∀ t ∈ u, ¬ (t.1 = y ∧ t.2.1 = x)) → cellI g' y x = cellI g y x) ∧
+    (∀ y x, cellI g' y x = cellI g y x ∨ ∃ t ∈ u, t.1 = y ∧ t.2.1 = x ∧ cellI g' y x = some t.2.2) ∧
+    (GridValid c g → GridValid c g') ∧
+    (c.symmetry = true → Sym c g → Sym c g'))
+
 /-! ## problems and patterns -/
 
 /-- `p'` differs from `p` at most inside the subtree at path `pos`: same node kinds and lengths along the
